@@ -98,10 +98,11 @@ def reference_steps(pol, env, td0, h):
 
 
 def unit(item):
-    pkey, skey, flags, tier, seed, wseed, train = item
+    pkey, skey, flags, tier, seed, wseed, train = item[:7]
+    temp = item[7] if len(item) > 7 else 1.0
     spec = ALL_SPECS[skey]
     p = Partial()
-    mode = "train" if train else "eval"
+    mode = ("train" if train else "eval") + ("" if temp == 1.0 else f"|T={temp}")
     for iid, inst in pick_instances(spec, tier, seed):
         env = spec.env(inst)
         td0 = spec.td(inst)
@@ -110,6 +111,8 @@ def unit(item):
             p.add(skipped_large=1)
             continue
         pol = make(pkey, env, wseed, train)
+        if temp != 1.0:
+            pol.temperature = temp  # the policy's softmax temperature (constructor argument of every constructive policy)
         B1 = 2 if flags.get("no_batch1") else 1
         leaves = tree.leaves
         p.add(states=tree.states, transitions=tree.transitions)
@@ -117,7 +120,7 @@ def unit(item):
             phase = "train" if train else "test"
             ev = evaluate_all(pol, env, td0, leaves, flags.get("eval_kw", "actions"), phase)
         except Exception as e:  # noqa: BLE001
-            p.violation(sig(pkey, skey, f"crash:{type(e).__name__}", f"evaluate|{mode}"), dict(kind="c11", policy=pkey, spec=skey, instance_id=iid, instance=inst, wseed=wseed, train=train, what="evaluate"), f"{pkey} x {skey} {iid} ({mode}): evaluate mode crashed: {type(e).__name__}: {str(e)[:120]}")
+            p.violation(sig(pkey, skey, f"crash:{type(e).__name__}", f"evaluate|{mode}"), dict(kind="c11", policy=pkey, spec=skey, instance_id=iid, instance=inst, wseed=wseed, train=train, temp=temp, what="evaluate"), f"{pkey} x {skey} {iid} ({mode}): evaluate mode crashed: {type(e).__name__}: {str(e)[:120]}")
             continue
         p.add(evaluations=len(leaves), distinct_count=len(leaves))
         # (3) global normalisation
@@ -125,7 +128,7 @@ def unit(item):
             tot = sum(math.exp(sum(v[0])) for v in ev.values())
             p.outcome(f"{pkey}|{skey}|norm{round(tot, 3)}")
             if abs(tot - 1.0) > 1e-3:
-                p.violation(sig(pkey, skey, "normalisation", f"sum_over_all_sequences|{mode}"), dict(kind="c11", policy=pkey, spec=skey, instance_id=iid, instance=inst, wseed=wseed, train=train, what="normalisation"), f"{pkey} x {skey} {iid} ({mode}): sum over all {len(ev)} complete sequences of exp(log_likelihood) = {tot:.6f}, expected 1")
+                p.violation(sig(pkey, skey, "normalisation", f"sum_over_all_sequences|{mode}"), dict(kind="c11", policy=pkey, spec=skey, instance_id=iid, instance=inst, wseed=wseed, train=train, temp=temp, what="normalisation"), f"{pkey} x {skey} {iid} ({mode}): sum over all {len(ev)} complete sequences of exp(log_likelihood) = {tot:.6f}, expected 1")
         # (2) reference per-step log-probs
         if flags.get("base") and not train:
             for h in [leaves[i] for i in E.pick_indices(len(leaves), 12 if tier == "quick" else 60)]:
@@ -137,21 +140,21 @@ def unit(item):
                 p.add(traces_validated_against_impl=1)
                 got = ev[h][0]
                 if len(got) != len(ref) or any(abs(a - b) > TOL for a, b in zip(got, ref)):
-                    p.violation(sig(pkey, skey, "per_step_logprob", f"evaluate|{mode}"), dict(kind="c11", policy=pkey, spec=skey, instance_id=iid, instance=inst, wseed=wseed, train=train, what="reference", actions=list(h)), f"{pkey} x {skey} {iid}: per-step log-probs of {list(h)} from evaluate {[round(x, 4) for x in got]} differ from the masked log-softmax of the decoder logits {[round(x, 4) for x in ref]}")
+                    p.violation(sig(pkey, skey, "per_step_logprob", f"evaluate|{mode}"), dict(kind="c11", policy=pkey, spec=skey, instance_id=iid, instance=inst, wseed=wseed, train=train, temp=temp, what="reference", actions=list(h)), f"{pkey} x {skey} {iid}: per-step log-probs of {list(h)} from evaluate {[round(x, 4) for x in got]} differ from the masked log-softmax of the decoder logits {[round(x, 4) for x in ref]}")
         # (4) decoders
         def check_rollout(kind, acts, ll, rew, ent, skip_first=0):
             h = tuple(acts)
             if h not in ev:
-                p.violation(sig(pkey, skey, "actions", f"{kind}|{mode}"), dict(kind="c11", policy=pkey, spec=skey, instance_id=iid, instance=inst, wseed=wseed, train=train, what=kind, actions=list(h)), f"{pkey} x {skey} {iid}: {kind} decoding returned {list(h)}, which is not a complete feasible sequence")
+                p.violation(sig(pkey, skey, "actions", f"{kind}|{mode}"), dict(kind="c11", policy=pkey, spec=skey, instance_id=iid, instance=inst, wseed=wseed, train=train, temp=temp, what=kind, actions=list(h)), f"{pkey} x {skey} {iid}: {kind} decoding returned {list(h)}, which is not a complete feasible sequence")
                 return
             steps, r, en = ev[h]
             want = sum(steps[skip_first:])
             if abs(ll - want) > TOL:
-                p.violation(sig(pkey, skey, "log_likelihood", f"{kind}|{mode}"), dict(kind="c11", policy=pkey, spec=skey, instance_id=iid, instance=inst, wseed=wseed, train=train, what=kind, actions=list(h)), f"{pkey} x {skey} {iid} ({mode}): {kind} returned log-likelihood {ll:.6f} for {list(h)}, evaluate gives {want:.6f} (PPO ratio {math.exp(want - ll):.6f})")
+                p.violation(sig(pkey, skey, "log_likelihood", f"{kind}|{mode}"), dict(kind="c11", policy=pkey, spec=skey, instance_id=iid, instance=inst, wseed=wseed, train=train, temp=temp, what=kind, actions=list(h)), f"{pkey} x {skey} {iid} ({mode}): {kind} returned log-likelihood {ll:.6f} for {list(h)}, evaluate gives {want:.6f} (PPO ratio {math.exp(want - ll):.6f})")
             if abs(rew - r) > 1e-5 * (1 + abs(r)):
-                p.violation(sig(pkey, skey, "reward", f"{kind}|{mode}"), dict(kind="c11", policy=pkey, spec=skey, instance_id=iid, instance=inst, wseed=wseed, train=train, what=kind, actions=list(h)), f"{pkey} x {skey} {iid}: {kind} reward {rew} vs evaluate {r} for {list(h)}")
+                p.violation(sig(pkey, skey, "reward", f"{kind}|{mode}"), dict(kind="c11", policy=pkey, spec=skey, instance_id=iid, instance=inst, wseed=wseed, train=train, temp=temp, what=kind, actions=list(h)), f"{pkey} x {skey} {iid}: {kind} reward {rew} vs evaluate {r} for {list(h)}")
             if ent is not None and en == en and ent == ent and skip_first == 0 and abs(ent - en) > 1e-4 * (1 + abs(en)):
-                p.violation(sig(pkey, skey, "entropy", f"{kind}|{mode}"), dict(kind="c11", policy=pkey, spec=skey, instance_id=iid, instance=inst, wseed=wseed, train=train, what=kind, actions=list(h)), f"{pkey} x {skey} {iid}: {kind} entropy {ent} vs evaluate {en} for {list(h)}")
+                p.violation(sig(pkey, skey, "entropy", f"{kind}|{mode}"), dict(kind="c11", policy=pkey, spec=skey, instance_id=iid, instance=inst, wseed=wseed, train=train, temp=temp, what=kind, actions=list(h)), f"{pkey} x {skey} {iid}: {kind} entropy {ent} vs evaluate {en} for {list(h)}")
 
         if flags.get("multipath") or flags.get("polynet") or flags.get("no_roundtrip"):
             p.note(f"{pkey}: per-path / per-strategy outputs; only evaluate-mode consistency is checked")
@@ -178,7 +181,7 @@ def unit(item):
                 check_rollout("sampling", acts, ll, rew, ent)
             missing = set(ev) - sampled
             if missing:
-                p.violation(sig(pkey, skey, "support", f"sampling|{mode}"), dict(kind="c11", policy=pkey, spec=skey, instance_id=iid, instance=inst, wseed=wseed, train=train, what="sampling", actions=list(sorted(missing)[0])), f"{pkey} x {skey} {iid}: sampler can never emit the feasible sequence {list(sorted(missing)[0])} ({len(missing)} of {len(ev)} unreachable)")
+                p.violation(sig(pkey, skey, "support", f"sampling|{mode}"), dict(kind="c11", policy=pkey, spec=skey, instance_id=iid, instance=inst, wseed=wseed, train=train, temp=temp, what="sampling", actions=list(sorted(missing)[0])), f"{pkey} x {skey} {iid}: sampler can never emit the feasible sequence {list(sorted(missing)[0])} ({len(missing)} of {len(ev)} unreachable)")
         except ExplorationCapped:
             p.add(caps_hit=1)
         # greedy
@@ -241,6 +244,10 @@ def main(tier):
             items.append((pkey, skey, flags, tier, seed, wseed, False))
         if pkey in ("am", "symnco", "ham", "l2d") and (tier == "thorough" or skey in ("tsp", "cvrp", "pdp", "fjsp:mask")):
             items.append((pkey, skey, flags, tier, seed, 0, True))
+        if flags.get("base") and (tier == "thorough" or skey in ("tsp", "cvrp", "op:dist", "pdp")):
+            items.append((pkey, skey, flags, tier, seed, 0, False, 2.0))
+            if tier == "thorough":
+                items.append((pkey, skey, flags, tier, seed, 1, False, 0.5))
     rep.merge_all(pmap(unit, items))
     rep.extra["pairs"] = sorted({f"{i[0]}x{i[1]}" for i in items})
     return rep.finish()
@@ -255,7 +262,7 @@ def replay(rec):
     orig = me.pick_instances
     me.pick_instances = lambda spec_, tier, seed: [(rec["instance_id"], rec["instance"])]
     try:
-        p = unit((rec["policy"], rec["spec"], flags, "quick", 0, rec["wseed"], rec["train"]))
+        p = unit((rec["policy"], rec["spec"], flags, "quick", 0, rec["wseed"], rec["train"], rec.get("temp", 1.0)))
     finally:
         me.pick_instances = orig
     return bool(p.violations), "; ".join(v["msg"] for v in p.violations[:3]) or "round trip holds"
